@@ -162,7 +162,10 @@ func (m *c36Model) genChangeParam(rt *rapid.T, c *harness.Case, forceKey string)
 	unknown := false
 	if key == "" {
 		if rapid.IntRange(0, 11).Draw(rt, "unknownKey") == 0 {
-			key = rapid.SampledFrom([]string{"pos/NoSuchParam", "nosuchspace/MaxValidators", "noslash", "gov/", "/acl", "pos/maxvalidators"}).Draw(rt, "badKey")
+			// keys without an ACL entry. Keys naming a subspace that does not exist ("nosuchspace/X", "/acl") are left out:
+			// behind the ACL check they end in os.Exit, which would turn every ACL-bypass defect into a dead test
+			// process instead of a reported violation; they take the same nil-owner path as these.
+			key = rapid.SampledFrom([]string{"pos/NoSuchParam", "noslash", "gov/", "pos/maxvalidators", "application/acl", "gov/ACL"}).Draw(rt, "badKey")
 			unknown = true
 		} else {
 			key = m.acl[rapid.IntRange(0, len(m.acl)-1).Draw(rt, "keyIdx")].Key
